@@ -150,7 +150,7 @@ def run(tier):
         seen.add(k)
         progs.append(build("p%05d" % len(progs), t, what, tr, fn, code, entry, extra))
     out = common.Outcome(PID)
-    extra = e3_extras.summary(e3_extras.c08_tables(out))
+    extra = e3_extras.summary(e3_extras.safe(e3_extras.c08_tables, out))
     return e1.finish(
         PID, tier, progs, t0, outcome=out, extra=extra,
         rule="one Kani harness per (operator trait, struct shape): all payloads of both operands symbolic; every owned/reference form of the trait is "
